@@ -97,6 +97,7 @@ func Main(args []string) {
 			if o.Extra["cyclic"] != "" && i%40 == 39 {
 				c.Stream = "cyclic"
 				c.Prog = Gen(cr, GenOpts{MaxTasks: 4, Cyclic: true, NoGuards: true, MaxActs: 30})
+				c.Prog.maxSteps = 8*c.Prog.Cfg.MaxCall + 2000
 			} else if i%5 == 1 {
 				c.Stream = "directed"
 				c.Prog = Directed(cr)
@@ -164,6 +165,9 @@ func Main(args []string) {
 	for i, c := range cases {
 		var out *RunOut
 		var err error
+		if c.Stream == "cyclic" && c.Prog.maxSteps == 0 {
+			c.Prog.maxSteps = 8*c.Prog.Cfg.MaxCall + 2000
+		}
 		if c.pre != nil {
 			out = c.pre
 		} else {
@@ -224,7 +228,9 @@ func Main(args []string) {
 			}
 			obs.Count("cyclic-result:" + out.Result)
 			if out.Overrun {
-				obs.ImplFails = append(obs.ImplFails, common.ImplFail{Case: i, Kind: "inconclusive", Msg: "scheduler overrun"})
+				// far more scheduler steps than MaximumTaskCall calls can take: the call limit did not end the cycle
+				obs.ImplFails = append(obs.ImplFails, common.ImplFail{Case: i, Kind: "cycle-not-ended-by-call-limit",
+					Msg: fmt.Sprintf("cyclic program still running after %d scheduler steps (MaximumTaskCall = %d)", c.Prog.maxSteps, c.Prog.Cfg.MaxCall)})
 			}
 			out.Obs = nil
 			out.Schedule = nil
